@@ -87,9 +87,15 @@ def document(draw, tier):
     else:
         depth = draw(st.integers(0, 4 if tier == "quick" else 6))
         br = draw(branch(depth, 4 if tier == "quick" else 50, 4))
-    return {"label": draw(st.sampled_from(LABELS)),
-            "colors_before": draw(st.lists(st.sampled_from(COLORS), max_size=2)),
-            "branch": br, "ws": draw(st.integers(0, 2 ** 31 - 1))}
+    doc = {"label": draw(st.sampled_from(LABELS)),
+           "colors_before": draw(st.lists(st.sampled_from(COLORS), max_size=2)),
+           "branch": br, "ws": draw(st.integers(0, 2 ** 31 - 1))}
+    if draw(st.integers(0, 2)) == 0:
+        # comments between any two tokens of the tree body (after a split's '(', around '|', before a ')', ...),
+        # not only after a point: [gap selector, text]
+        doc["gap_comments"] = [[draw(st.integers(0, 10 ** 6)), draw(COMMENT_TEXT)]
+                               for _ in range(draw(st.integers(1, 4)))]
+    return doc
 
 
 # ----------------------------------------------------------------------------- rendering
@@ -149,9 +155,38 @@ def tokens_and_table(case, strip_decor=False):
         for c in case["colors_before"]:
             toks.extend([("(", "("), ("word", "Color"), ("word", c), (")", ")")])
     toks.extend([("(", "("), ("word", case["label"]), (")", ")")])
+    body_start = len(toks) + 1  # first gap inside the body: after the first point's '('... see gap_positions
     emit_branch(case["branch"], -1)
     toks.append((")", ")"))
+    if not strip_decor and case.get("gap_comments"):
+        toks = insert_gap_comments(toks, body_start, case["gap_comments"])
     return toks, nodes
+
+
+STRUCT = ("(", ")", "|", "comment")
+
+
+def gap_positions(toks, body_start):
+    """Gaps (index g = before token g) of the tree body where the supported grammar allows a comment: between two
+    structural tokens (brackets, '|', comments), i.e. never inside a point or a colour marker, and not before the
+    first point of the tree (the label must be followed by a point)."""
+    out = []
+    for g in range(body_start, len(toks)):
+        if toks[g - 1][0] in STRUCT and toks[g][0] in STRUCT:
+            # '(' followed by a word / number starts a colour marker / point: kinds exclude those gaps already
+            out.append(g)
+    return out
+
+
+def insert_gap_comments(toks, body_start, gap_comments):
+    toks = list(toks)
+    for sel, text in gap_comments:
+        gaps = gap_positions(toks, body_start)
+        if not gaps:
+            break
+        g = gaps[sel % len(gaps)]
+        toks.insert(g, ("comment", ";" + text + "\n"))
+    return toks
 
 
 WS = [" ", "\n", "\t", "  ", " \n ", "\n\n", " \t "]
